@@ -21,17 +21,21 @@ SEPARATOR_PREFS = ("DecimalSeparators", "BlockSeparators")
 # langs: the language the repository's tests pair with the code (tests/common/mod.rs test_braille), plus the code's home language
 # marks: decimal mark character -> cell of the DECIMAL SIGN in that code (the session writes numbers with its own mark; CMU and Vietnam
 #        write dot 2 for the decimal sign whatever the print character, UEB and Swedish follow print: comma dot 2, point dots 256 / dot 3)
+# dropped: the published code also writes numbers in the lower part of the cell in some positions (CMU, Swedish: the denominator of a
+#          numeric fraction and the divisor after an inline slash; Vietnam with UseDropNumbers): the oracle DECODES that form too, i.e. a
+#          literal counts as rendered when its run occurs in upper OR in dropped digits (never when it is absent or incomplete)
 # variants: code specific preferences under which the operand oracle applies
-# alphabet_only: preferences that legitimately change digit shapes -> exercised for the alphabet check only
+# alphabet_only: preference sets exercised by C07 only (none at present: drop numbers are decoded by the operand oracle)
 CODES = {
-    "Nemeth": {"kind": "cell", "langs": ["en"], "digits": LOWER, "marks": {".": "⠨"}, "variants": [{}], "alphabet_only": []},
-    "UEB": {"kind": "cell", "langs": ["en"], "digits": UPPER, "marks": {".": "⠲", ",": "⠂"},
+    "Nemeth": {"kind": "cell", "langs": ["en"], "digits": LOWER, "marks": {".": "⠨"}, "dropped": False, "variants": [{}], "alphabet_only": []},
+    "UEB": {"kind": "cell", "langs": ["en"], "digits": UPPER, "marks": {".": "⠲", ",": "⠂"}, "dropped": False,
             "variants": [{}, {"UEB_START_MODE": "Grade1"}, {"UEB_UseSpacesAroundAllOperators": "true"},
                          {"UEB_START_MODE": "Grade1", "UEB_UseSpacesAroundAllOperators": "true"}, DECIMAL_COMMA], "alphabet_only": []},
-    "CMU": {"kind": "cell", "langs": ["es"], "digits": UPPER, "marks": {",": "⠂", ".": "⠂"}, "variants": [{}, DECIMAL_POINT], "alphabet_only": []},
-    "Vietnam": {"kind": "cell", "langs": ["vi"], "digits": UPPER, "marks": {",": "⠂"},
-                "variants": [{"Vietnam_UseDropNumbers": "false"}], "alphabet_only": [{"Vietnam_UseDropNumbers": "true"}]},
-    "Swedish": {"kind": "cell", "langs": ["en", "sv"], "digits": UPPER, "marks": {",": "⠂", ".": "⠄"},
+    "CMU": {"kind": "cell", "langs": ["es"], "digits": UPPER, "marks": {",": "⠂", ".": "⠂"}, "dropped": True,
+            "variants": [{}, DECIMAL_POINT], "alphabet_only": []},
+    "Vietnam": {"kind": "cell", "langs": ["vi"], "digits": UPPER, "marks": {",": "⠂"}, "dropped": True,
+                "variants": [{"Vietnam_UseDropNumbers": "false"}, {"Vietnam_UseDropNumbers": "true"}], "alphabet_only": []},
+    "Swedish": {"kind": "cell", "langs": ["en", "sv"], "digits": UPPER, "marks": {",": "⠂", ".": "⠄"}, "dropped": True,
                 "variants": [{}, {"UseSpacesAroundAllOperators": "true"}], "alphabet_only": []},
     "LaTeX": {"kind": "text", "langs": ["en"], "variants": [{"LaTeX_UseShortName": "false"}, {"LaTeX_UseShortName": "true"},
                                                             dict(DECIMAL_COMMA, LaTeX_UseShortName="true")], "alphabet_only": []},
@@ -39,7 +43,13 @@ CODES = {
     "ASCIIMath-fi": {"kind": "text", "langs": ["en"], "variants": [{}], "alphabet_only": []},
 }
 
-LITERAL_RX = re.compile(r"\d\d[.,]\d\d")
+# planted literals: decimals NN<mark>DD and whole numbers of three or four digits (all ten digits occur, 0 included)
+LITERAL_RX = re.compile(r"\d\d[.,]\d\d|[1-9]\d{2,3}")
+DECIMAL_RX = re.compile(r"\d\d[.,]\d\d")
+
+# every code-specific preference with its default, so that a session that SWITCHES configuration sets all of them explicitly
+DEFAULT_EXTRAS = {"UEB_START_MODE": "Grade2", "UEB_UseSpacesAroundAllOperators": "false", "UseSpacesAroundAllOperators": "false",
+                  "Vietnam_UseDropNumbers": "false", "LaTeX_UseShortName": "false"}
 
 
 def shipped_codes():
@@ -70,6 +80,110 @@ def prefs_for(cfg):
     p = {"TTS": "None", "Language": cfg["lang"], "BrailleCode": cfg["code"], "BrailleNavHighlight": cfg.get("highlight", "Off")}
     p.update(cfg.get("extra", {}))
     return p
+
+
+def switch_ops(cfg):
+    """operations that move a RUNNING session to this configuration: every code-specific preference is set (defaults included)"""
+    p = {"Language": cfg["lang"], "BrailleCode": cfg["code"], "BrailleNavHighlight": cfg.get("highlight", "Off")}
+    p.update(DEFAULT_EXTRAS)
+    p.update({k: v for k, v in cfg.get("extra", {}).items() if k not in SEPARATOR_PREFS})
+    return [("set_preference", k, v) for k, v in p.items()]
+
+
+class NumberBook(gen.Textbook):
+    """The shared textbook grammar with (a) whole-number literals next to the decimal ones, drawn so that all ten digits occur in every
+    operand position, and (b) the purely numeric shapes for which braille codes have forms of their own: numeric fractions, inline
+    'number / number' rows of exactly three children, mixed numbers, negative numerators, numeric scripts and indices."""
+
+    CONSTRUCTS = gen.Textbook.CONSTRUCTS + ["numfrac", "slash3", "mixedint", "negslash", "numscript", "numroot", "numcell"]
+    P_WHOLE = 0.45
+
+    def literal(self):
+        r = self.rng
+        if r.random() < self.P_WHOLE:
+            for _ in range(200):
+                s = str(r.randint(100, 9999))
+                # whole numbers are told apart by their digit run: none may be part of another one
+                if any(s in u or u in s for u in self.used if isinstance(u, str)):
+                    continue
+                self.used.add(s)
+                self.literals.append(s)
+                return gen.mn(s)
+            raise RuntimeError("literal space exhausted")
+        for _ in range(200):
+            whole = r.randint(10, 99)
+            frac = r.randint(0, 99)
+            if whole in self.used or frac in self.used or whole == frac:
+                continue
+            s = "%d%s%02d" % (whole, self.decimal, frac)
+            self.used.add(whole)
+            self.used.add(frac)
+            self.literals.append(s)
+            return gen.mn(s)
+        raise RuntimeError("literal space exhausted")
+
+    def whole(self):
+        old, self.P_WHOLE = self.P_WHOLE, 1.0
+        try:
+            return self.literal()
+        finally:
+            self.P_WHOLE = old
+
+    def c_numfrac(self, d):
+        a = {"bevelled": "true"} if self.rng.random() < 0.2 else {}
+        n = gen.N("mfrac", [self.whole(), self.whole()])
+        n.attrs = a
+        return n
+
+    def c_slash3(self, d):
+        return gen.mrow(self.whole(), gen.mo(self.rng.choice(["/", "/", "÷", ":", "∶"])), self.whole())
+
+    def c_negslash(self, d):
+        return gen.mrow(gen.mrow(gen.mo(self.rng.choice(["-", "−"])), self.whole()), gen.mo(self.rng.choice(["/", "÷"])), self.whole())
+
+    def c_mixedint(self, d):
+        return gen.mrow(self.whole(), gen.N("mfrac", [self.whole(), self.whole()]))
+
+    def c_numscript(self, d):
+        r = self.rng
+        base = gen.mi(r.choice(gen.VARS)) if r.random() < 0.7 else self.whole()
+        kind = r.choice(["msub", "msup", "msubsup", "munder", "mover"])
+        kids = [base, self.whole()] + ([self.whole()] if kind == "msubsup" else [])
+        return gen.N(kind, kids)
+
+    def c_numroot(self, d):
+        r = self.rng
+        if r.random() < 0.5:
+            return gen.N("msqrt", [self.whole()])
+        return gen.N("mroot", [self.operand(d + 1), self.whole()])
+
+    def c_numcell(self, d):
+        r = self.rng
+        rows, cols = r.randint(1, 3), r.randint(1, 3)
+        tab = gen.N("mtable", [gen.N("mtr", [gen.N("mtd", [self.literal()]) for _ in range(cols)]) for _ in range(rows)])
+        o, c = r.choice([("(", ")"), ("[", "]"), ("|", "|")])
+        return gen.mrow(gen.mo(o), tab, gen.mo(c))
+
+
+def position_class(tree, path):
+    """operand position class of the node at path: parent element and child index, for rows the operator in front of it"""
+    chain = [tree]
+    for i in path[:-1]:
+        chain.append(chain[-1].kids[i])
+    parent = chain[-1]
+    idx = path[-1]
+    if parent.tag in ("mrow", "math", "mtd", "msqrt", "mstyle", "mpadded", "menclose", "semantics", "mfenced"):
+        if parent.tag == "mfenced":
+            return "mfenced-item"
+        prev = parent.kids[idx - 1] if idx > 0 else None
+        gp = chain[-2].tag if len(chain) > 1 else "-"
+        if prev is None:
+            return "first-in-%s" % (parent.tag if parent.tag != "mrow" else "row-of-" + gp)
+        if prev.kids is None and prev.tag == "mo":
+            t = prev.text or ""
+            return "after-op:%s" % (t if t in "/÷:∶-−+" and t else "other")
+        return "after-" + prev.tag
+    return "%s[%d]" % (parent.tag, idx)
 
 
 def cfg_sig(cfg):
@@ -155,15 +269,17 @@ def mask_highlight(s):
     return "".join(chr(ord(c) & ~0xC0) if is_cell(c) else c for c in s)
 
 
-def literal_cells(code, lit):
-    """cell run of a decimal literal in a cell code, or None when the published table has no cell for its decimal mark"""
+def literal_cells(code, lit, dropped=False):
+    """cell run of a literal in a cell code (dropped=True: in lower-cell digits), or None when the published table has no cell for its
+    decimal mark; for a text code the literal itself"""
     info = CODES[code]
     if info["kind"] == "text":
         return lit
+    digits = LOWER if dropped else info["digits"]
     out = []
     for c in lit:
         if c.isdigit():
-            out.append(info["digits"][int(c)])
+            out.append(digits[int(c)])
         elif c in info["marks"]:
             out.append(info["marks"][c])
         else:
@@ -181,7 +297,7 @@ def tree_literals(tree):
 
 def set_decimal(tree, mark):
     for n, _ in tree.walk():
-        if n.tag == "mn" and n.text and LITERAL_RX.fullmatch(n.text):
+        if n.tag == "mn" and n.text and DECIMAL_RX.fullmatch(n.text):
             n.text = n.text[:2] + mark + n.text[3:]
     return tree
 
